@@ -254,7 +254,7 @@ func genAnswer(t *rapid.T) AnswerCase {
 	}
 	c.Route = rapid.SampledFrom(feasibleRoutes(cat, c.Code, c.App, c.Flags)).Draw(t, "route")
 	if c.Route == routeSCTP {
-		c.Stream = uint16(rapid.IntRange(0, 15).Draw(t, "stream"))
+		c.Stream = drawStream(t, "stream")
 	}
 	c.ReqAVPs = rapid.IntRange(0, 2).Draw(t, "request-avps")
 	return c
@@ -375,3 +375,12 @@ func TestC16AnswerEveryCommand(t *testing.T)       { answerProp.Enumerate(t, tru
 func TestC16AnswerRandom(t *testing.T)             { answerProp.Check(t, 3000, 200000) }
 func TestC16Keep(t *testing.T)                     { ev.RunKeep(t, "C16") }
 func TestReplay(t *testing.T)                      { ev.Replay(t) }
+
+// drawStream: every inbound stream number - the ones two default peers negotiate (0..15) and,
+// because an association may be set up with more streams, the rest of the 16-bit range.
+func drawStream(t *rapid.T, label string) uint16 {
+	if rapid.IntRange(0, 2).Draw(t, label+"-high") == 0 {
+		return rapid.SampledFrom([]uint16{16, 17, 31, 32, 100, 255, 256, 32767, 32768, 65534, 65535}).Draw(t, label)
+	}
+	return uint16(rapid.IntRange(0, 15).Draw(t, label))
+}
